@@ -21,6 +21,9 @@ bool __CPROVER_uninterpreted_str_contains(qstr a, qstr b);
 static inline bool qstr_startsWith(qstr a, qstr b) { if (a == b || b == 0) return true; if (a == 0) return false; return __CPROVER_uninterpreted_str_startsWith(a, b); }
 static inline bool qstr_contains(qstr a, qstr b) { if (a == b || b == 0) return true; if (a == 0) return false; return __CPROVER_uninterpreted_str_contains(a, b); }
 
+/* size()/length(): an uninterpreted function of the string; only  size("") == 0  and  size(non-empty) > 0  are known */
+int __CPROVER_uninterpreted_str_size(qstr a);
+static inline int qstr_size(qstr a) { if (a == 0) return 0; int n = __CPROVER_uninterpreted_str_size(a); __CPROVER_assume(n > 0 && n < (1 << 30)); return n; }
 bool __CPROVER_uninterpreted_str_endsWith(qstr a, qstr b);
 static inline bool qstr_endsWith(qstr a, qstr b) { if (a == b || b == 0) return true; if (a == 0) return false; return __CPROVER_uninterpreted_str_endsWith(a, b); }
 /* JID helpers (QXmppUtils): uninterpreted, with only axioms that hold for the real functions on EVERY string:
